@@ -509,6 +509,15 @@ class Runner:
                 self.ctx.cls("algorithm.undefined_at_an_observation")
                 if name in model:
                     self.ctx.cls("algorithm.undefined_at_an_observation.over_an_existing_name")
+            elif self.counter % 2 == 0:
+                # a recurrence: the algorithm reads the feature it is filling at the observation before (running sums,
+                # exponential smoothing): the feature is registered before the algorithm runs, and what was written
+                # for i-1 is what reading it at i-1 gives
+                rn = tr._n(name) if hasattr(tr, "_n") else name
+
+                def f(track, i):
+                    return base + 1 if i == 0 else track.getObsAnalyticalFeature(rn, i - 1) + 1
+                self.ctx.cls("algorithm_reading_its_own_feature_at_the_observation_before")
             else:
                 f = lambda track, i: base + i + 1
             if k == "set_fn":
@@ -1091,7 +1100,8 @@ _FLOORS_EXTRA = {'monitors': {'decoy.unchanged': 50000, 'failed_expression.state
                  'classes': {'shift_by_whole_turns': 500, 'expression_through_item_access': 2000, 'sibling_track': 1000,
                              'less_usual_feature_names': 5000, 'zero_valued_write': 5000, 'algorithm.undefined_at_an_observation.over_an_existing_name': 800,
                              'algorithm_named_by_its_own_name.over_an_existing_name': 500,
-                             'expression_on_an_empty_feature_table': 300, 'expression_of_more_than_100_operations': 6}}
+                             'expression_on_an_empty_feature_table': 300,
+                             'algorithm_reading_its_own_feature_at_the_observation_before': 1000, 'expression_of_more_than_100_operations': 6}}
 
 
 def floors(tier):
